@@ -222,6 +222,12 @@ def run_case(case, tid):
         dmax = max(abs(a - b) for a, b in zip(et, et[1:]))
         cyc = dmax > 0 and any(len(et) > p_ and abs(et[-1] - et[-1 - p_]) <= 1e-3 * dmax for p_ in (2, 3, 4))
     info["elevations_cycle"] = bool(cyc)
+    # ... and of the recorded slow-convergence finding: the error shrinks by a roughly constant factor per iteration (linear
+    # convergence) and simply has not reached the accuracy when the cap runs out
+    errs = info.get("error_tail_ft") or []
+    ratios = [b_ / a_ for a_, b_ in zip(errs, errs[1:]) if a_ > 0]
+    info["converging_linearly"] = bool(len(ratios) >= 4 and all(0.0 < r_ < 0.9 for r_ in ratios)
+                                       and max(ratios) - min(ratios) <= 0.1 * max(ratios))
     lines.append(end)
     info["end"] = end
     return lines, info
@@ -274,7 +280,8 @@ def run(chk: core.Check, replay=None) -> None:
         chk.violation(clause, {"look_class": "level" if look < 1 else ("mild" if look <= 10 else ("steep" if look < 40 else "very_steep")),
                                "outcome": info["outcome"], "reachable": info["reachable"], "arc_class": info["arc_class"],
                                "error_within_sampling_jump": info.get("error_within_sampling_jump"),
-                               "elevations_cycle": info.get("elevations_cycle")}, info)
+                               "elevations_cycle": info.get("elevations_cycle"),
+                               "converging_linearly": info.get("converging_linearly")}, info)
     chk.sample({k: v for k, v in infos[1].items()})
     chk.sample({"trace_lines": lines[:4]})
     chk.require_strata(["outcome_Returned", "outcome_RangeErr", "reachable", "unreachable", "look_level", "look_mild", "look_steep",
